@@ -10,6 +10,7 @@ CPAR_NAMES = ["windowLog", "chainLog", "hashLog", "searchLog", "minMatch", "targ
 COPIED = ["format", "checksumFlag", "dictIDFlag", "forceMaxWindow", "forceAttachDict", "literalCompressionMode", "jobSize", "overlapLog",
           "rsyncable", "enableDedicatedDictSearch", "targetCBlockSize", "srcSizeHint", "blockDelimiters", "validateSequences",
           "deterministicRefPrefix", "prefetchCDictTables", "enableSeqProducerFallback"]
+INIT_OPS = ("cinit", "cinitsrc", "cinitdict", "cinitcdict", "cinitcdictadv", "cinitadv", "cresetcs")      # round 3
 FRAME_OPS = ("cbegin", "cend", "cframe", "cfail", "cfxwin", "csimple")
 SIZES = {"cframe": 300, "cfxwin": 5000, "csimple": 300}
 
@@ -21,6 +22,9 @@ KEYS = {
     "F31": ("C16-refused-midframe-set-reparametrises-mt", "a refused mid-frame ZSTD_CCtx_setParameter re-parametrises the running multithreaded frame"),
     "F32": ("C16-fparams-negative-checksumflag", "a negative ZSTD_frameParameters.checksumFlag yields a frame whose header does not announce the checksum that is appended"),
     "F33": ("C16-cparamschanged-survives-frame", "a parameter update made during one frame re-parametrises the next multithreaded frame"),
+    "R3a": ("C16-ddictset-survives-parameter-reset", "ZSTD_DCtx_reset(parameters) keeps the DDicts referenced for ZSTD_d_refMultipleDDicts: a dropped DDict is selected again"),
+    "R3b": ("C16-refmulti-select-bypasses-dictid-check", "with ZSTD_d_refMultipleDDicts the selection of a referenced DDict vouches for whatever dictionary was loaded: the dictID check passes"),
+    "R3c": ("C16-simple-api-leaves-stream-open", "a single-call compression on a context with an open streaming frame leaves the session open"),
 }
 
 
@@ -94,6 +98,22 @@ def scenarios(env):
     out.append(("F33", ["new", "cbegin 0", "cset 0 %d 3" % lvl] + cobs(0) + ["cend 0"] + cobs(0) + ["cset 0 %d 1" % nbw, "crefprefix 0 1", "cbegin 0"] + cobs(0)
                 + ["cend 0"] + cobs(0, True)))
     out.append(("F33", ["new", "cset 0 %d 3" % lvl, "cset 0 %d 1" % nbw, "crefprefix 0 1", "cbegin 0"] + cobs(0) + ["cend 0"] + cobs(0, True)))
+    # R3a (round 3): a parameter reset drops the set of referenced DDicts; the dropped one is not selected again
+    for rs in (2, 3):
+        for dec in ("ddec", "ddec1"):
+            out.append(("R3a", ["new", "dset 0 %d 1" % rm, "drefddict 0 1", "dreset 0 %d" % rs, "%s 0 1" % dec, "dset 0 %d 1" % rm, "drefddict 0 2",
+                                "%s 0 1" % dec, "%s 0 2" % dec, "ddecm 0 2 1 0", "ddecu 0 2 1"]))
+    out.append(("R3a", ["new", "dset 0 %d 1" % rm, "drefddict 0 1", "drefddict 0 2", "dreset 0 2", "dset 0 %d 1" % rm, "dload 0 2", "ddec 0 1", "ddec1 0 1", "ddec 0 2"]))
+    # R3b (round 3): raw dictionary bytes given to a context that references DDicts: the dictID check is not bypassed
+    for refs in (["drefddict 0 1"], ["drefddict 0 1", "drefddict 0 2"], ["drefddict 0 2", "dload 0 2"], ["drefddict 0 1", "drefprefix 0 1"]):
+        out.append(("R3b", ["new", "dset 0 %d 1" % rm] + refs + ["ddecr 0 2 1", "ddecr 0 1 1", "ddecr 0 0 1", "ddecr 0 1 2", "ddecr 0 2 2", "ddecr 0 0 0", "ddecr 0 1 3", "ddec 0 1"]))
+    out.append(("R3b", ["new", "dset 0 %d 1" % rm, "drefddict 0 1", "dset 0 %d 1" % env.did["forceIgnoreChecksum"], "ddecr 0 2 1", "ddecr 0 1 1"]))
+    # R3c (round 3): ZSTD_compressCCtx in the middle of a streamed frame closes the session
+    for tail in (["cbegin 0", "cend 0"], ["cend 0"], ["cset 0 %d 1" % env.cid["checksumFlag"], "cframe 0"], ["cpl 0 200", "cbegin 0", "cbegin 0", "cend 0"]):
+        out.append(("R3c", ["new", "cbegin 0", "csimple 0"] + tail))
+    out.append(("R3c", ["new", "cpl 0 300", "cbegin 0", "csimple 0", "cbegin 0", "cend 0"]))
+    out.append(("R3c", ["new", "cload 0 1", "cbegin 0", "csimple 0", "cframe 0"]))
+    out.append(("R3c", ["new", "cfail 0", "csimple 0", "cbegin 0", "cend 0"]))
     return [(tag, with_obs([o for o in ops if o.split()[0] not in OBSERVERS])) for tag, ops in out]
 
 
@@ -144,6 +164,39 @@ def gen_grid2(rng, env, tier, c16):
                         t = f.split()
                         ops += ["%s %d%s" % (t[0], o, "".join(" " + x for x in t[1:]))] + cobs(o, t[0] in ("cend", "cframe", "csimple", "cfxwin"))
                     cases.append((ops, ("PL", o, sname, "unk" if v == UNK else "big" if v > 10 ** 6 else str(v), "+".join(follow))))
+    # ---- round 3: the deprecated stream initialisers x stage x arguments x following frames
+    def init_probes(o):
+        good = " ".join(map(str, cheap_cpar(rng, env, c16)))
+        out = []
+        for lv in (0, 1, 3, -5, 22, 23, -(1 << 17) - 1, 2 ** 31 - 1, -2 ** 31):
+            out.append("cinit %d %d" % (o, lv))
+        for lv, pss in ((1, 0), (3, 100), (2, 200), (1, UNK), (0, 300), (-1, 1 << 63), (19, 5000)):
+            out.append("cinitsrc %d %d %d" % (o, lv, pss))
+        for k in (0, 1, 2):
+            out.append("cinitdict %d %d %d" % (o, k, rng.choice([1, 2, 3, 0, -1])))
+            out.append("cinitcdict %d %d" % (o, k))
+            for fp in ((0, 0, 0), (1, 1, 1), (1, 0, 0), (0, 1, 0)):
+                out.append("cinitcdictadv %d %d %d %d %d %d" % ((o, k) + fp + (rng.choice([0, 100, 200, 300, UNK]),)))
+            for bad in (None, None, (0, "hi+1"), (6, "zero"), (3, "lo-1"), (1, "intmax")):
+                fp = rng.choice([(0, 0, 0), (1, 1, 1), (1, 0, 1), (0, 1, 0)])
+                out.append("cinitadv %d %d %s %d %d %d %d" % ((o, k, " ".join(map(str, cheap_cpar(rng, env, c16, bad)))) + fp + (rng.choice([0, 0, 100, 200, 300, UNK]),)))
+        for pss in (0, 100, 200, 300, UNK, 1 << 63, 101):
+            out.append("cresetcs %d %d" % (o, pss))
+        return out
+    for o in (0, 1):
+        for sname in cs_names:
+            if quick and o == 1 and sname not in ("fresh", "mid", "dirty"):
+                continue
+            for probe in init_probes(o):
+                if quick and rng.random() < (0.5 if o == 0 else 0.75):
+                    continue
+                ops = setup(o, sname, dirty=rng.random() < 0.6)
+                if rng.random() < 0.3:
+                    ops += [rng.choice(["cload", "crefcdict", "crefprefix"]) + " %d %d" % (o, rng.randint(1, 2))] if "mid" not in sname else []
+                ops += [probe]
+                ops += [x + " %d" % o for x in rng.choice([["cbegin", "cend"], ["cframe"], ["cend"], ["cbegin", "cbegin", "cend"], ["cbegin", "cbegin", "cbegin", "cend"],
+                                                           ["cbegin", "cinit", "cbegin", "cend"], ["cframe", "cframe"], ["csimple", "cbegin", "cend"]]) if x != "cinit"]
+                cases.append((with_obs([x for x in ops if x.split()[0] not in OBSERVERS]), ("INIT", o, sname, probe.split()[0], c16.vclass(int(probe.split()[2]), -5, 22) if probe.split()[0] in ("cinit", "cinitsrc") else probe.split()[2])))
     # direct rule: feeding beyond the pledge must fail (no model)
     for o in (0, 1):
         for pledged, fed in ((0, 1), (0, 100), (50, 100), (99, 100), (100, 101), (1000, 5000), (4999, 5000)):
@@ -227,11 +280,13 @@ def gen_grid2(rng, env, tier, c16):
                             ops += with_obs(s)
                         ops += dobs(o) + ["%s %d %d" % (second[0], o, second[1])] + dobs(o)
                         for _ in range(4):
-                            d = rng.choice(["ddec", "ddec", "ddec1", "dframe", "dreset %d 1" % o, "dreset %d 2" % o, "dbegin", "dend", "dfx"])
+                            d = rng.choice(["ddec", "ddec", "ddec1", "dframe", "dreset %d 1" % o, "dreset %d 2" % o, "dbegin", "dend", "dfx", "ddecr"])
                             if d.startswith("dreset"):
                                 ops += [d]
                             elif d in ("ddec", "ddec1"):
                                 ops += ["%s %d %d" % (d, o, rng.randint(0, 4))]
+                            elif d == "ddecr":
+                                ops += ["ddecr %d %d %d" % (o, rng.randint(0, 2), rng.randint(0, 4))]
                             elif d == "dfx":
                                 ops += ["dfx %d %d" % (o, rng.randint(0, 4))]
                             else:
@@ -246,7 +301,19 @@ def gen_grid2(rng, env, tier, c16):
                 for j, f in enumerate(seq):
                     ops += ["%s 0 %d" % (how if how != "mix" else ("ddec", "ddec1")[j % 2], f)] + dobs(0)
                 ops += ["ddecm 0 %d %d %d" % seq] + dobs(0) + ["ddecu 0 %d %d" % (refs[0], seq[0])] + dobs(0)
+                ops += ["ddecr 0 %d %d" % (3 - refs[0], seq[0])] + dobs(0) + ["ddecr 0 %d %d" % (refs[0], seq[1])] + dobs(0) + ["%s 0 %d" % ("ddec1" if how == "ddec1" else "ddec", seq[2])] + dobs(0)
                 cases.append((ops, ("DM", refs, seq, how)))
+    # round 3: a parameter reset in the middle of a multi-DDict history, then other references
+    for refs in ((1,), (1, 2), (2, 1)):
+        for rs in (2, 3):
+            for again in ((), (2,), (1,), (2, 1)):
+                for multi2 in (0, 1):
+                    ops = ["new", "dset 0 %d 1" % rm] + ["drefddict 0 %d" % r for r in refs] + ["dreset 0 %d" % rs]
+                    ops += (["dset 0 %d 1" % rm] if multi2 else []) + ["drefddict 0 %d" % r for r in again]
+                    for f in (1, 2, 0):
+                        ops += ["%s 0 %d" % (rng.choice(["ddec", "ddec1"]), f)]
+                    ops += ["ddecr 0 %d %d" % (rng.randint(0, 2), rng.randint(0, 2))]
+                    cases.append((with_obs(ops), ("DRS", refs, rs, again, multi2)))
     return cases
 
 
@@ -274,6 +341,13 @@ def gen_history2(rng, env, n, c16):
                 op = rng.choice(["cload", "crefcdict", "crefprefix"]) + " %d %d" % (o, rng.randint(0, 2))
             elif k < 0.75:
                 op = "capply %d" % o
+            elif k < 0.78:
+                op = rng.choice(["cinit %d %d" % (o, rng.choice([1, 2, 3, 0, -1])), "cinitsrc %d %d %d" % (o, rng.choice([1, 2, 3]), rng.choice([0, 100, 200, 300, UNK])),
+                                 "cinitdict %d %d %d" % (o, rng.randint(0, 2), rng.choice([1, 2, 3])), "cinitcdict %d %d" % (o, rng.randint(0, 2)),
+                                 "cinitcdictadv %d %d %d %d %d %d" % (o, rng.randint(0, 2), rng.randint(0, 1), rng.randint(0, 1), rng.randint(0, 1), rng.choice([0, 100, 200, 300, UNK])),
+                                 "cinitadv %d %d %s %d %d %d %d" % (o, rng.randint(0, 2), " ".join(map(str, cheap_cpar(rng, env, c16, None if rng.random() < 0.8 else (rng.randrange(7), "hi+1")))),
+                                                                    rng.randint(0, 1), rng.randint(0, 1), rng.randint(0, 1), rng.choice([0, 100, 200, 300, UNK])),
+                                 "cresetcs %d %d" % (o, rng.choice([0, 100, 200, UNK]))])
             elif k < 0.85:
                 op = "cpl %d %d" % (o, rng.choice(PLEDGES))
             elif k < 0.90:
@@ -320,8 +394,10 @@ def gen_history2(rng, env, n, c16):
                 op = rng.choice(["ddec", "ddec", "ddec1"]) + " %d %d" % (o, rng.randint(0, 4))
             elif k < 0.76:
                 op = "ddecm %d %d %d %d" % (o, rng.randint(0, 4), rng.randint(0, 4), rng.randint(0, 4))
-            elif k < 0.82:
+            elif k < 0.80:
                 op = "ddecu %d %d %d" % (o, rng.randint(0, 2), rng.randint(0, 4))
+            elif k < 0.84:
+                op = "ddecr %d %d %d" % (o, rng.randint(0, 2), rng.randint(0, 4))
             else:
                 op = rng.choice(["dbegin", "dend", "dbad", "dbadcall", "dframe", "dfx"]) + " %d" % o
                 if op.startswith("dfx"):
@@ -418,6 +494,14 @@ class SessionOracle:
                     att = None
         elif k0 == "creset" and t[2] in ("2", "3") and cls == "ok":
             att = ("none", 0)
+        elif k0 in ("cinit", "cinitsrc"):
+            att = ("none", 0)
+        elif k0 in ("cinitdict", "cinitcdict", "cinitcdictadv", "cinitadv"):
+            k = int(t[2])
+            if cls == "ok":
+                att = ("none", 0) if k == 0 else ("dict", k)
+            elif not (k0 == "cinitadv" and cls == "oob"):
+                att = None
         elif k0 in ("cframe", "cfail", "cfxwin") or (k0 in ("cbegin", "cend") and not mid and cls != "skip"):
             s["used"] = att                       # the frame that starts now uses what is attached
             if att is not None and att[0] == "prefix":
@@ -469,6 +553,10 @@ class SessionOracle:
                     inb = all(e.cb[e.cid[n]][0] <= v <= e.cb[e.cid[n]][1] for n, v in zip(CPAR_NAMES, a))
                     if inb != (cls == "ok"):
                         return "composite call with %s cParams: class %s" % ("valid" if inb else "invalid", cls)
+            if k0 in INIT_OPS:
+                m = self.judge_init(t, cls, vec0, now)
+                if m:
+                    return m
             if k0 == "cpl" and now != vec0:
                 return "setPledgedSrcSize changed parameters / stage / dictionary"
             if k0 == "cend" and not mid and cls != "ok":
@@ -477,6 +565,18 @@ class SessionOracle:
                 return "ZSTD_compress2 failed: the size of the call must override any pledge"
         if key == "x" and b["x"] is not None:
             x0 = b["x"]
+            if k0 in INIT_OPS and cls == "ok":
+                U = 1 << 64
+                a_ = [int(x) for x in t[2:]]
+                want = {"cinit": 0, "cinitdict": 0, "cinitcdict": 0}.get(k0)
+                if k0 in ("cinitsrc", "cresetcs"):
+                    want = 0 if a_[-1] == 0 else (a_[-1] + 1) % U          # 0 means unknown for these two
+                elif k0 == "cinitcdictadv":
+                    want = (a_[-1] + 1) % U
+                elif k0 == "cinitadv":
+                    want = 0 if (a_[-1] == 0 and a_[8] == 0) else (a_[-1] + 1) % U
+                if int(now[0]) != want:
+                    return "stream initialiser: pledged size recorded as %s (expected %d)" % (now[0], want)
             if k0 == "cpl":
                 if mid:
                     if cls != "stage" or now != x0:
@@ -550,6 +650,63 @@ class SessionOracle:
                     return "the frame names dictionary %d although %s %d was attached" % (did, used[0], used[1])
         return None
 
+    def judge_init(self, t, cls, vec0, now):
+        """the deprecated stream initialisers against what zstd.h gives as their modern equivalent"""
+        e, nc, ix = self.e, self.nc, self.ix
+        k0, o = t[0], int(t[1])
+        a = [int(x) for x in t[2:]]
+        if now[nc] != "0":
+            return "after a stream initialiser the context is still in the middle of a frame"
+        want = list(vec0[:nc])
+        wdict = vec0[nc + 1]
+        lid = e.cid["compressionLevel"]
+
+        def lvl(v):
+            lo, hi = e.cb[lid]
+            v = min(max(v, lo), hi)
+            return str(e.level_default if v == 0 else v)
+        if k0 in ("cinit", "cinitsrc"):
+            want[ix["compressionLevel"]] = lvl(a[0])
+            wdict = "0"
+            if cls != "ok":
+                return "%s failed (class %s)" % (k0, cls)
+        elif k0 == "cinitdict":
+            want[ix["compressionLevel"]] = lvl(a[1])
+            static_copy = o == 1 and a[0] != 0
+            if (cls == "ok") == static_copy:
+                return "%s: class %s" % (k0, cls)
+            wdict = "0" if (a[0] == 0 or static_copy) else "1"
+        elif k0 in ("cinitcdict", "cinitcdictadv"):
+            if cls != "ok":
+                return "%s failed (class %s)" % (k0, cls)
+            wdict = "0" if a[0] == 0 else "3"
+            if k0 == "cinitcdictadv" and all(x in (0, 1) for x in a[1:4]):
+                want[ix["contentSizeFlag"]], want[ix["checksumFlag"]], want[ix["dictIDFlag"]] = str(a[1]), str(a[2]), str(1 - a[3])
+            elif k0 == "cinitcdictadv":
+                return None
+        elif k0 == "cinitadv":
+            inb = all(e.cb[e.cid[n]][0] <= v <= e.cb[e.cid[n]][1] for n, v in zip(CPAR_NAMES, a[1:8]))
+            static_copy = o == 1 and a[0] != 0
+            if not inb:
+                if cls != "oob":
+                    return "cinitadv with invalid cParams: class %s" % cls
+            else:
+                if (cls == "ok") == static_copy:
+                    return "cinitadv with valid cParams: class %s" % cls
+                if not all(x in (0, 1) for x in a[8:11]):
+                    return None
+                for n, v in zip(CPAR_NAMES, a[1:8]):
+                    want[ix[n]] = str(v)
+                want[ix["contentSizeFlag"]], want[ix["checksumFlag"]], want[ix["dictIDFlag"]] = str(a[8]), str(a[9]), str(1 - a[10])
+                want[ix["compressionLevel"]] = now[ix["compressionLevel"]]     # zstd.h: unchanged; the code stores ZSTD_NO_CLEVEL (docs/C16.md 9.4)
+                wdict = "0" if (a[0] == 0 or static_copy) else "1"
+        if list(now[:nc]) != want:
+            d = [(e.cname[e.cids[j]], want[j], now[j]) for j in range(nc) if want[j] != now[j]]
+            return "%s: requested parameters after the call differ from the documented equivalent: %s" % (k0, d[:3])
+        if now[nc + 1] != wdict:
+            return "%s: dictionary state %s (expected %s)" % (k0, now[nc + 1], wdict)
+        return None
+
     # ---- decompression side
     def judge_d(self, cur, key, prev, now, s):
         _, o, op, r, _ = cur
@@ -566,7 +723,7 @@ class SessionOracle:
                     return "stage_wrong in the init stage"
                 if now[:nd + 2] != b["vec"][:nd + 2]:
                     return "dictionary call changed parameters / stage"
-            if k0 in ("ddec", "ddec1", "ddecm", "ddecu") and now[:nd + 1] != b["vec"][:nd + 1]:
+            if k0 in ("ddec", "ddec1", "ddecm", "ddecu", "ddecr") and now[:nd + 1] != b["vec"][:nd + 1]:
                 return "parameters changed by a decompression call"
         if key == "x" and b["x"] is not None and b["vec"] is not None:
             nd = len(self.e.dids)
@@ -588,8 +745,19 @@ class SessionOracle:
                     return "a session reset changed the dictionary state"
                 if t[2] in ("2", "3") and now[:3] != ["0", "0", "0"]:
                     return "a parameter reset keeps a dictionary"
+                if t[2] in ("2", "3") and now[3:6] != ["0", "0", "0"]:
+                    return "a parameter reset keeps the DDicts referenced for ZSTD_d_refMultipleDDicts (set allocated / members %s)" % now[3:6]
             if k0 in ("dset", "dget", "dmaxwin", "dbadcall") and now != x0:
                 return "the dictionary state changed by a parameter call"
+            if k0 == "ddecr" and fmt == "0" and not mid:
+                # ZSTD_decompress_usingDict with raw dictionary bytes: the verdict depends on that dictionary and on the frame only
+                k, f = int(t[2]), int(t[3]) % 5
+                need_ok = f == 0 or (f in (1, 2) and k == f)
+                if need_ok != (cls == "ok"):
+                    return "ZSTD_decompress_usingDict(dictionary %d) on frame %d: %s" % (k, f, " ".join(rr))
+                if f in (1, 2) and k != f and " ".join(rr[1:]) != "Dictionary mismatch":
+                    return ("ZSTD_decompress_usingDict(dictionary %d) on a frame naming dictionary %d: '%s' instead of dictionary_wrong "
+                            "(the dictID check was bypassed)" % (k, f, " ".join(rr[1:])))
             if k0 in ("ddec", "ddec1") and fmt == "0":
                 f = int(t[2]) % 5
                 uses, kind, which = x0[0], x0[1], int(x0[2])
